@@ -41,13 +41,13 @@ REGEX_FILES = {
 add('C01', ['C01Spec', 'C01', 'C01b', 'C01c', 'C01d', 'C01e', 'C01f', 'C01g', 'C01h'], ['corr.doc', 'corr.nest', 'corr.nest2', 'corr.brdoc', 'corr.linkdoc'] + PIPE,
     'Lean 4: specification `spec : Doc → html` of the construct grammar + print; theorems on the pipeline model for sub-grammars; spec and model both tied to the implementation by correspondence',
     'PARTIAL: the print-then-parse theorem is proved only for the sub-grammar named in Props/C01*.lean; for the rest of the grammar the Lean `spec` is compared with the implementation by correspondence and search only.')
-add('C02', ['C02Block', 'C02Inline', 'C02X', 'C02Big'], PIPE + ['corr.extract', 'corr.code', 'corr.attrlist', 'corr.pipelinex'],
+add('C02', ['C02Block', 'C02Inline', 'C02X', 'C02Big', 'C02Fn'], PIPE + ['corr.extract', 'corr.code', 'corr.attrlist', 'corr.pipelinex'],
     'Lean 4 termination proofs: the fuel bounds of the block parser (and of the inline engine) always suffice — `parseDocument` is total for every input; total pipeline model tied by end-to-end correspondence; broad search for exceptions/timeouts',
     'PARTIAL: proved for the core pipeline model on text without `<`; the stdlib HTML tokenizer, unmodelled extensions and CPython\'s recursion limit (F-C02-3) are outside the theorems — for them only the search speaks.')
 add('C03', ['C03Code', 'C03', 'C03Fenced', 'C03X'], ['corr.code', 'corr.pipelinex'] + PIPE,
     'Lean 4 proofs: code_escape composed with the serializer escapes exactly once and reads back to the body (for all strings); fenced-code recogniser/stash theorems; code text carried through the pipeline model',
     'PARTIAL: the stdlib tokenizer is not modelled (F-C03-1 lives there); "whatever surrounds the code" is proved for the placements named in Props/C03*.lean, the others are covered by correspondence and search.')
-add('C04', ['C04', 'C04Text'], ['corr.extract', 'corr.htmltok', 'corr.pipelineh'],
+add('C04', ['C04', 'C04Text', 'C04Many'], ['corr.extract', 'corr.htmltok', 'corr.pipelineh'],
     'Lean 4 proofs over an event-level model of HTMLExtractor (state machine over tokenizer events) and of the raw-HTML restore: a balanced block is stashed verbatim exactly once and restored unwrapped; events recorded from the real parser are replayed in the model',
     'PARTIAL: the stdlib tokenizer that produces the events is trusted, not modelled (F-C04-1 lives there); blocks starting while `intail`, md_in_html and multi-pass restore are covered by correspondence/search only.')
 add('C05', ['C05Block', 'C05', 'C05Amp', 'C05Full', 'C05X', 'C05XFull', 'C14'], PIPE + ['corr.serializer', 'corr.readers', 'corr.c05x'],
